@@ -33,3 +33,7 @@ def fix_main(m):
     return '\n'.join(keys[k] for k in order) + '\n'
 s = blocks(s).sub(fix_main, s)
 open(p, 'w').write(s)
+p = 'coq/_CoqProject'
+s = open(p).read()
+s = blocks(s).sub(lambda m: m.group(1) + m.group(2), s)
+open(p, 'w').write(s)
